@@ -124,7 +124,10 @@ class EntropyRegularizedPolicyIteration(Plans):
             policy_prior=policy_prior,
             initial_policy=None,
             check_convergence=True,
-            force_nonzero_probabilities=True
+            # unavailable actions have prior 0 and must keep probability 0: clamping
+            # them to the smallest float (log = -708) lets them win the softmax
+            # once q/entropy_weight of the available actions falls below that
+            force_nonzero_probabilities=False
         )
         policy = TabularPolicy.from_state_action_lists(
             mdp.state_list,
